@@ -62,8 +62,10 @@ operation on every variable -/
 
 namespace DSV
 
-/-- same data: dimension names, labels of every axis, shape, every cell of the shape, metadata (the kind and the
-metadata of the *axes* are not compared: `Dataset.take_axis` rebuilds the operated axis as a bare `Axis`) -/
+/-- same data: dimension names, labels of every axis, shape, every cell of the shape, metadata.  (The first drafts of
+the statements below were made modulo this relation because `Dataset.take_axis` rebuilt the operated axis as a bare
+`Axis`; since it uses `Axis.take` like `DimArray.take_axis` the statements are equations, and the `SameData` forms
+follow with `sameData_refl`.) -/
 def SameData {α} (r r' : DimArray α) : Prop :=
   r.dims = r'.dims ∧ r.axes.map (·.labels) = r'.axes.map (·.labels) ∧ r.vals.shape = r'.vals.shape ∧
   (∀ j, InRange r.vals.shape j → r.vals.get j = r'.vals.get j) ∧ r.attrs = r'.attrs
@@ -153,13 +155,16 @@ theorem GoodDs.axis_eq {α} {ds : Ds α} (hg : GoodDs ds) {name : String} {ax : 
 /-- TAKE_AXIS (positions): every variable that has the dimension comes back as `take_axis` of that variable,
 the others as they are; keys and dataset metadata kept; the result is again a Dataset with shared axes.
 
+CHANGE (axis metadata kept by `Dataset.take_axis`): the conclusion for a variable that has the dimension is the
+equation `r = takeAxisPos v ...` (axes with kind and metadata, value kind included), no longer `SameData`.
+
 CHANGE: the hypothesis `hin` (positions in range) of the first draft is not needed and was dropped (the statement
 relates two models that treat out-of-range positions in the same way); `OwnAxes out` was added to the conclusion. -/
 theorem takeAxisPosDs_spec {α : Type} (ds out : Ds α) (name : String) (ps : List Nat) (hg : GoodDs ds)
     (h : takeAxisPosDs ds name ps = .ok out) :
     out.keys = ds.keys ∧ out.attrs = ds.attrs ∧ SharedAxes out ∧ OwnAxes out ∧
     ∀ k v, (k, v) ∈ ds.vars → ∃ r, (k, r) ∈ out.vars ∧
-      (name ∈ v.dims → SameData r (takeAxisPos v (v.dims.idxOf name) ps)) ∧ (name ∉ v.dims → r = v) := by
+      (name ∈ v.dims → r = takeAxisPos v (v.dims.idxOf name) ps) ∧ (name ∉ v.dims → r = v) := by
   obtain ⟨ax, hfind, hout⟩ := takeAxisPosDs_closed ds out name ps hg.2.1 hg.1.2.2 hg.2.2.1 h
   have hsh := reduce_shared ds name (takeNewAxis name ax ps) (takeVals ps) rfl hg.1 hg.2.1 out hout
   refine ⟨?_, ?_, hsh.1, hsh.2, ?_⟩
@@ -172,11 +177,8 @@ theorem takeAxisPosDs_spec {α : Type} (ds out : Ds α) (name : String) (ps : Li
     · subst hout
       exact List.mem_map_of_mem (f := fun kv => (kv.1, reduceVar name (takeNewAxis name ax ps) (takeVals ps) kv.2)) hkv
     · intro hmem
-      have hax : ∀ a ∈ v.axes, a.name = name → a.labels = ax.labels := by
-        intro a ha hn
-        rw [hg.axis_eq hfind hkv a ha hn]
-      obtain ⟨h1, h2, h3, h4, _⟩ := reduceVar_take v name ax ps (hg.2.2.2 (k, v) hkv).1 hmem hax
-      exact ⟨h1, h2, by rw [h3], fun j _ => by rw [h3], h4⟩
+      exact reduceVar_take_eq v name ax ps (hg.2.2.2 (k, v) hkv).1 hmem (find?_name_some hfind).2
+        (hg.axis_eq hfind hkv)
     · intro hmem
       exact reduceVar_of_not_mem name _ _ v hmem
 
@@ -186,7 +188,7 @@ theorem sortAxisDs_spec {α : Type} (ds out : Ds α) (name : String) (hg : GoodD
     (h : sortAxisDs ds name = .ok out) :
     out.keys = ds.keys ∧ out.attrs = ds.attrs ∧ SharedAxes out ∧ OwnAxes out ∧
     ∀ k v, (k, v) ∈ ds.vars → ∃ r, (k, r) ∈ out.vars ∧
-      (name ∈ v.dims → ∃ r', sortAxis v (.name name) = .ok r' ∧ SameData r r') ∧ (name ∉ v.dims → r = v) := by
+      (name ∈ v.dims → sortAxis v (.name name) = .ok r) ∧ (name ∉ v.dims → r = v) := by
   unfold sortAxisDs at h
   split at h
   · cases h
@@ -197,10 +199,8 @@ theorem sortAxisDs_spec {α : Type} (ds out : Ds α) (name : String) (hg : GoodD
     obtain ⟨r, hr, hin, hnot⟩ := h5 k v hkv
     refine ⟨r, hr, ?_, hnot⟩
     intro hmem
-    refine ⟨_, sortAxis_name_eq v name hmem, ?_⟩
     have hax := axes_getD_idxOf v name hmem
-    rw [hg.axis_eq hfind hkv _ hax.1 hax.2]
-    exact hin hmem
+    rw [sortAxis_name_eq v name hmem, hg.axis_eq hfind hkv _ hax.1 hax.2, hin hmem]
 
 /-- REINDEX_AXIS (method=None, raise_error=False): every variable that has the dimension comes back as
 `reindex_axis` of that variable with the same fill; variables without the dimension are left alone
@@ -209,7 +209,7 @@ theorem reindexAxisDs_spec {α : Type} (ds out : Ds α) (name : String) (newL : 
     (fill : α) (hg : GoodDs ds) (h : reindexAxisDs ds name newL newKind fill fillKind = .ok out) :
     out.keys = ds.keys ∧ out.attrs = ds.attrs ∧ SharedAxes out ∧ OwnAxes out ∧
     ∀ k v, (k, v) ∈ ds.vars → ∃ r, (k, r) ∈ out.vars ∧
-      (name ∈ v.dims → ∃ r', reindexAxis v (.name name) newL newKind fill fillKind false none = .ok r' ∧ SameData r r') ∧
+      (name ∈ v.dims → reindexAxis v (.name name) newL newKind fill fillKind false none = .ok r) ∧
       (name ∉ v.dims → r = v) := by
   obtain ⟨ax, taken, hfind, hne, htk, hout⟩ := reindexAxisDs_closed ds out name newL newKind fillKind fill h
   obtain ⟨t1, t2, t3, t4, t5⟩ := takeAxisPosDs_spec ds taken name _ hg htk
@@ -240,26 +240,11 @@ theorem reindexAxisDs_spec {α : Type} (ds out : Ds α) (name : String) (newL : 
           (locateMany ax.labels newL .left)) (takeVals (locateMany ax.labels newL .left)) kv.2)) hkv
       have hmemo := List.mem_map_of_mem (f := rxPatch name ax newL newKind fill fillKind) hmemt
       by_cases hmem : name ∈ v.dims
-      · obtain ⟨r, hr, hax, hvals, hattrs, _⟩ := rxPatch_reduceVar v k name ax hmem newL newKind fill fillKind _ rfl hany
-        rw [hr] at hmemo
-        refine ⟨r, by rw [hout]; exact hmemo, ?_, fun hn => absurd hmem hn⟩
-        intro _
-        refine ⟨_, reindexAxis_name_ok v name hmem ax (hgetD k v hkv hmem) newL newKind fill fillKind hne, ?_⟩
-        have hax' := rxResult_axes v name ax newL newKind fill fillKind (hg.2.2.2 (k, v) hkv).1 hany
-        refine ⟨?_, ?_, by rw [hvals], fun j _ => by rw [hvals], hattrs⟩
-        · show r.axes.map (·.name) = (rxResult v name ax newL newKind fill fillKind).axes.map (·.name)
-          rw [hax, hax', List.map_map, List.map_map]
-          apply List.map_congr_left
-          intro a _
-          simp only [Function.comp]
-          split
-          · exact haxn.symm
-          · rfl
-        · rw [hax, hax', List.map_map, List.map_map]
-          apply List.map_congr_left
-          intro a _
-          simp only [Function.comp]
-          split <;> rfl
+      · rw [rxPatch_reduceVar_eq v k name ax hmem (hg.2.2.2 (k, v) hkv).1 haxn newL newKind fill fillKind _ rfl hany]
+          at hmemo
+        exact ⟨_, by rw [hout]; exact hmemo,
+          fun _ => reindexAxis_name_ok v name hmem ax (hgetD k v hkv hmem) newL newKind fill fillKind hne,
+          fun hn => absurd hmem hn⟩
       · rw [reduceVar_of_not_mem name _ _ v hmem, rxPatch_of_not_mem name ax newL newKind fill fillKind (k, v) hmem] at hmemo
         exact ⟨v, by rw [hout]; exact hmemo, fun hm => absurd hm hmem, fun _ => rfl⟩
   · -- every requested label is present: the clipped take is the result
@@ -270,10 +255,9 @@ theorem reindexAxisDs_spec {α : Type} (ds out : Ds α) (name : String) (newL : 
     obtain ⟨r, hr, hin, hnot⟩ := t5 k v hkv
     refine ⟨r, hr, ?_, hnot⟩
     intro hmem
-    refine ⟨_, reindexAxis_name_ok v name hmem ax (hgetD k v hkv hmem) newL newKind fill fillKind hne, ?_⟩
+    rw [reindexAxis_name_ok v name hmem ax (hgetD k v hkv hmem) newL newKind fill fillKind hne, hin hmem]
     unfold rxResult
     rw [if_neg hany]
-    exact hin hmem
 
 theorem sameData_refl {α} (r : DimArray α) : SameData r r := ⟨rfl, rfl, rfl, fun _ _ => rfl, rfl⟩
 
@@ -377,7 +361,7 @@ theorem exDs_good : GoodDs exDs := by
 /-- `takeAxisPosDs_spec` applied to the concrete Dataset: `take_axis([2, 0], axis="x")` succeeds, keeps the keys,
 returns `b` (which has no dimension `x`) as it is and `a` as `a.take_axis([2, 0], axis=0)` -/
 example : ∃ out, takeAxisPosDs exDs "x" [2, 0] = .ok out ∧ out.keys = ["a", "b"] ∧ SharedAxes out ∧
-    ("b", exB) ∈ out.vars ∧ ∃ r, ("a", r) ∈ out.vars ∧ SameData r (takeAxisPos exA 0 [2, 0]) := by
+    ("b", exB) ∈ out.vars ∧ ("a", takeAxisPos exA 0 [2, 0]) ∈ out.vars := by
   have hfind : exDs.axes.find? (fun a => a.name == "x") = some exX := by simp [exDs, exX]
   obtain ⟨out, hout⟩ := takeAxisPosDs_ok exDs "x" [2, 0] exDs_good exX hfind (by simp [exX, Axis.size])
   obtain ⟨h1, _, h3, _, h5⟩ := takeAxisPosDs_spec exDs out "x" [2, 0] exDs_good hout
@@ -389,7 +373,7 @@ example : ∃ out, takeAxisPosDs exDs "x" [2, 0] = .ok out ∧ out.keys = ["a", 
     have hpos : exA.dims.idxOf "x" = 0 := by simp [exA, DimArray.dims, exX]
     have := hin (by simp [exA, DimArray.dims, exX])
     rw [hpos] at this
-    exact ⟨r, hr, this⟩
+    exact this ▸ hr
 
 /-! ### round 5: reductions, arithmetic, stack_ds / concatenate_ds (the operations that re-assemble a Dataset with
 `Dataset(dict)` / `__setitem__`)
